@@ -70,3 +70,28 @@ package block
 //@   callpre verifyNewBlock: b == block && bn != nil && prev == bn.block
 //@   ensures [verified] err == nil ==> it != nil && ghost(vnb_ok) && ghost(vnb_block) == block
 //@   ensures [rejected] !ghost(vnb_ok) ==> err != nil
+
+// ---------------------------------------------------------------------------
+// C08: a version 2 block is decoded only if the body matches what the header commits to: both
+// transaction lists and the vote list hash to the header's hashes, the BTP digest is the one whose
+// hash the result carries and hashes the body's own digest bytes, and the network section filter is
+// the digest's
+// ---------------------------------------------------------------------------
+//@ property C08
+// (tl_hash, cvs_hash, digest_hash, digest_src, result_btp: module/zz_contracts_verif.go)
+//@ func newProposer(bs) (p, err)
+//@   trusted
+//@   pure
+//@ func (b *blockV2Handler) NewBlockDataFromReader(r) (bd, err)
+//@   arith int
+//@   nosafety
+//@   modifies *
+//@   opt no-callee-pre
+//@   opt inline-none
+//@   opt protect all(V2HeaderFormat.PatchTransactionsHash), all(V2HeaderFormat.NormalTransactionsHash), all(V2HeaderFormat.VotesHash), all(V2HeaderFormat.Result), all(V2BodyFormat.BTPDigest)
+//@   opt writers Unmarshal
+//@   opt protect-local headerFormat.PatchTransactionsHash[*], headerFormat.NormalTransactionsHash[*], headerFormat.VotesHash[*], headerFormat.Result[*], bodyFormat.BTPDigest[*]
+//@   requires b != nil
+//@   callpre newProposer: tl_hash(patches) == seq(headerFormat.PatchTransactionsHash) && tl_hash(normalTxs) == seq(headerFormat.NormalTransactionsHash)
+//@   callpre newProposer: cvs_hash(votes) == seq(headerFormat.VotesHash)
+//@   callpre newProposer: digest_hash(bd) == result_btp(seq(headerFormat.Result)) && digest_src(bd) == seq(bodyFormat.BTPDigest) && digest_hash(bd) == sha3(seq(bodyFormat.BTPDigest))
